@@ -1,6 +1,10 @@
 //@ fn Store::tmp_file
 //@ spec
-    ensures res matches Ok(t) ==> t.content().len() == 0,
+    ensures
+        res matches Ok(t) ==> t.content().len() == 0,
+        // C23: the temporary file lives in <store>/tmp, the only place the next run sweeps
+        // (cleanup_tmp); a kill during the update can leave a partial file only there
+        res matches Ok(t) ==> t.dir_spec() == store_tmp_dir(*self),
 //@ closure map_err 1 optional
 |err: IoError| -> (r: Failed)
 //@ fn UpdateError::fatal
@@ -35,6 +39,9 @@
 //@ spec
     requires
         tmp_file.content().len() == 0,
+        // C23: crash-step model: the file being written may be left behind partially written by a
+        // kill at any step, so it must be in the swept temporary area, never in the point tree
+        in_tmp_area(tmp_file.dir_spec()),
         gen_ok(objects, manifest),
         validated(manifest),
     ensures
@@ -87,6 +94,10 @@
 //@ entry
     proof { lemma_file_states(); }
 //@ global
+// <store>/tmp: the directory store::Run::cleanup_tmp empties at the end of every run.
+spec fn tmp_name() -> Seq<char> { "tmp"@ }
+spec fn store_tmp_dir(s: Store) -> Path { join_spec(s.path.p, tmp_name()) }
+spec fn in_tmp_area(d: Path) -> bool { exists|s: Store| d == #[trigger] store_tmp_dir(s) }
 // ---- encodings (abstract; their read-back is C28's subject) -----------------
 uninterp spec fn enc_header(h: StoredPointHeader) -> Seq<u8>;
 uninterp spec fn enc_manifest(m: StoredManifest) -> Seq<u8>;
